@@ -160,7 +160,7 @@ def crash_site(c):
     for line in err.splitlines():
         if line.startswith("@step") or line.startswith("@action") or line.startswith("@api") or line.startswith("@parse") or line.startswith("@cli") or line.startswith("@pbo"):
             last = line[1:].split(" #")[0] if line.startswith("@step") else line[1:]
-    return "%s|%s|%s" % (kind, site, last.strip())
+    return "%s|%s|%s" % (kind, site.replace(" ", "_"), last.strip().replace(" ", "_"))
 
 
 # --------------------------------------------------------------------------------------------
